@@ -87,6 +87,13 @@ def size(spec):
 
 def add_recordings(m, spec):
     m.record("v", verbose=False)
+    # synaptic states and currents of every type (their rows are indexed by synapse, not by compartment)
+    from vp.ref import mech as R2_
+    for t in sorted({e["type"] for e in spec["edges"]}):
+        ids = [i for i, e in enumerate(spec["edges"]) if e["type"] == t]
+        for g in R2_.SYNAPSES[t]["states"]:
+            m.select(edges=ids).record(f"{t}_{g}", verbose=False)
+        m.select(edges=ids[-1:]).record(f"i_{t}", verbose=False)
     if spec.get("rec_gates"):
         for c in spec["channels"]:
             from vp.ref import mech as R2
@@ -123,7 +130,7 @@ def judge(spec, tier="quick"):
     if err:
         out.violate("raises", f"plain integrate raised {err.short()}", etype=err.etype, frame=err.frame)
         return out
-    if not np.isfinite(base).all() or np.max(np.abs(base[: len(m.nodes)])) > 300:
+    if not np.isfinite(base[: len(m.nodes)]).all() or np.max(np.abs(base[: len(m.nodes)])) > 300:
         out.filtered += 1
         return out
     sc = max(1.0, float(np.max(np.abs(base))))
